@@ -113,13 +113,14 @@ def run(ctx):
         runs += [(0, 8, 80, 2, "drain"), (0, 1, 50, 2, "pingpong"), (2, 1, 40, 1, "pingpong"), (0, 1, 250, 2, "cancelrace"), (0, 4, 200, 3, "stop"),
                  (3, 1, 150, 2, "closerace"), (2, 1, 100, 1, "closerace"), (0, 2, 6, 3, "dtimer"), (2, 3, 4, 2, "dtimer"), (0, 1, 15, 2, "restart"), (1, 1, 10, 1, "restart"), (1, 1, 2, 2, "prestart"), (2, 1, 2, 2, "prestart"), (3, 1, 3, 1, "prestart"),
                  (0, 1, 1, 5, "burst"), (2, 1, 1, 2, "burst"), (0, 1, 60, 2, "devclose"), (1, 1, 40, 1, "devclose"), (2, 1, 40, 1, "devclose"),
-                 (0, 1, 60, 2, "badfd"), (1, 1, 40, 1, "badfd"), (2, 1, 40, 1, "badfd")]
+                 (0, 1, 60, 2, "badfd"), (1, 1, 40, 1, "badfd"), (2, 1, 40, 1, "badfd"),
+                 (0, 1, 25, 2, "eqtimers"), (1, 1, 15, 1, "eqtimers"), (2, 1, 15, 1, "eqtimers")]
     else:
         for reactor in (1, 2, 3):
             for prod in (1, 2, 4, 8):
                 runs.append((reactor, prod, 250, 3, "drain"))
             runs += [(reactor, 1, 80, 2, "pingpong"), (reactor, 1, 400, 3, "cancelrace"), (reactor, 4, 300, 4, "stop"),
-                     (reactor, 1, 400, 3, "closerace"), (reactor, 1, 3, 3, "prestart"), (reactor, 4, 8, 6, "dtimer"), (reactor, 1, 40, 3, "restart"), (reactor, 1, 1, 9, "burst"), (reactor, 1, 300, 3, "devclose"), (reactor, 1, 200, 3, "badfd")]
+                     (reactor, 1, 400, 3, "closerace"), (reactor, 1, 3, 3, "prestart"), (reactor, 4, 8, 6, "dtimer"), (reactor, 1, 40, 3, "restart"), (reactor, 1, 1, 9, "burst"), (reactor, 1, 300, 3, "devclose"), (reactor, 1, 200, 3, "badfd"), (reactor, 1, 80, 3, "eqtimers")]
     n = 0
     for spec in runs:
         n += 1
